@@ -546,7 +546,9 @@ def draw_value(rng, kind, L):
             s = "00" + s
         return s, v
     if kind in VAR_KINDS:
-        v = rng.choice([0, 0, 1, 2, 3, 6, 7, 8, 255, 256, rng.getrandbits(rng.randint(1, 24))])
+        # small values, power-of-two boundaries, and values whose codes are longer than a machine word / 64 / 128 bits
+        v = rng.choice([0, 0, 1, 2, 3, 6, 7, 8, 255, 256, rng.getrandbits(rng.randint(1, 24)),
+                        rng.getrandbits(rng.randint(25, 200)), 2 ** rng.choice([31, 32, 33, 63, 64, 65]) - rng.choice([0, 1, 2])])
         if kind in SIGNED and rng.random() < 0.5:
             v = -v
         return (v if rng.random() < 0.85 else str(v)), v
